@@ -9,6 +9,7 @@ open Petl.Gen
 
 def expectedC06 : List (String × String) := [
   ("file:comparison.py", "c46d05a1308c92ce"),
+  ("file:compat.py", "2a259e16acd200bc"),
   ("file:config.py", "142bde514c82c29d"),
   ("file:transform/basics.py", "ef1ded632cafe787"),
   ("file:transform/joins.py", "bb9e0069e4d5e3a6"),
